@@ -63,6 +63,20 @@ type machine struct {
 	nonCur  int
 	overlap bool
 	multi   map[int]bool
+	retry   time.Duration // 0 = library default (1 minute)
+	starved bool          // all pipes are back-pressuring: re-transmissions pile up in the send queue
+	starves int
+}
+
+// release lets every pipe transmit again.
+func (m *machine) release() {
+	if m.starved {
+		for _, p := range m.pipes {
+			p.SetMode(vt.ModeAccept, nil)
+		}
+		m.starved = false
+		m.logf("release")
+	}
 }
 
 func (m *machine) logf(format string, a ...interface{}) {
@@ -150,6 +164,13 @@ func TestC03(t *testing.T) {
 		}
 		defer m.ep.Forget()
 		_ = sock.SetOption(mangos.OptionSendDeadline, 3*time.Second)
+		if rapid.IntRange(0, 2).Draw(t, "fastRetry") == 0 {
+			// short retry time: re-transmissions happen during the history (needed for "starve")
+			m.retry = 10 * time.Millisecond
+			if err := sock.SetOption(mangos.OptionRetryTime, m.retry); err != nil {
+				t.Fatalf("harness: %v", err)
+			}
+		}
 		np := rapid.IntRange(1, 3).Draw(t, "npipes")
 		for i := 0; i < np; i++ {
 			m.addPipe()
@@ -167,6 +188,7 @@ func TestC03(t *testing.T) {
 		acts := map[string]func(*rapid.T){
 			"send": func(t *rapid.T) {
 				ci, c := pickCtx("ctx")
+				m.release() // a Send needs a pipe that takes the message
 				c.nsent++
 				tag := fmt.Sprintf("Q%d:%d", ci, c.nsent)
 				err := c.c.Send([]byte(tag))
@@ -375,6 +397,38 @@ func TestC03(t *testing.T) {
 				m.logf("recvAsync(ctx%d)", ci)
 				m.canon += "A"
 			},
+			"starve": func(t *rapid.T) {
+				// All peers stop taking data: re-transmissions of outstanding requests are handed to
+				// the pipes until every pipe is busy, after which the requests wait in the send
+				// queue.  Whatever is cancelled or replaced in that state must still be forgotten.
+				if m.retry == 0 || m.starved {
+					t.Skip("needs the short retry time")
+				}
+				outstanding := false
+				for _, c := range m.ctxs {
+					if !c.closed && c.has && !c.answered {
+						outstanding = true
+					}
+				}
+				if !outstanding {
+					t.Skip("nothing outstanding")
+				}
+				for _, p := range m.pipes {
+					p.SetMode(vt.ModeBlock, nil)
+				}
+				m.starved = true
+				m.starves++
+				time.Sleep(time.Duration(len(m.pipes)+2)*m.retry + 10*time.Millisecond)
+				m.logf("starve")
+				m.canon += "V"
+			},
+			"release": func(t *rapid.T) {
+				if !m.starved {
+					t.Skip("not starved")
+				}
+				m.release()
+				m.canon += "v"
+			},
 			"openCtx": func(t *rapid.T) {
 				if len(m.ctxs) >= 3 {
 					t.Skip("enough contexts")
@@ -412,6 +466,7 @@ func TestC03(t *testing.T) {
 				if len(m.pipes) < 2 {
 					t.Skip("keep one pipe")
 				}
+				m.release()
 				pi := rapid.IntRange(0, len(m.pipes)-1).Draw(t, "pipe")
 				before := m.ev.Detached()
 				_ = m.pipes[pi].Close()
@@ -426,6 +481,7 @@ func TestC03(t *testing.T) {
 				if len(m.pipes) >= 3 {
 					t.Skip("enough pipes")
 				}
+				m.release()
 				m.addPipe()
 				m.logf("addPipe")
 				m.canon += "P"
@@ -438,8 +494,10 @@ func TestC03(t *testing.T) {
 		acts["reply4"] = acts["reply"]
 		acts["recv2"] = acts["recv"]
 		acts["recvAsync2"] = acts["recvAsync"]
+		acts["starve2"] = acts["starve"]
 		t.Repeat(acts)
 
+		m.release()
 		// drain pending async receivers
 		for _, c := range m.ctxs {
 			if c.async != nil && !c.closed {
@@ -474,7 +532,10 @@ func TestC03(t *testing.T) {
 		if m.overlap {
 			stats.Class("async_recv_overlapped_by_send")
 		}
-		if m.nonCur > 0 || nmulti >= 2 || m.overlap {
+		if m.starves > 0 {
+			stats.Class("starved_retransmission")
+		}
+		if m.nonCur > 0 || nmulti >= 2 || m.overlap || m.starves > 0 {
 			stats.NonTrivial(m.canon)
 		}
 		stats.Sample(map[string]interface{}{"trace": m.trace})
